@@ -19,12 +19,22 @@ type fullSizer interface {
 	AddNumTxs(numTxs int)
 }
 
+// probe is one (newMiniBlocks, newTxs) query used by the monotonicity oracle
+type probe struct{ a, b int }
+
+var probes = []probe{{0, 0}, {1, 0}, {0, 1}, {1, 100}, {0, 5000}, {3, 20000}, {1, 27000}, {10, 60000}, {40, 100000}}
+
 // proposerSim drives the REAL block size throttler and the real size computation through a history of
-// proposer rounds the way the block processor does: ComputeCurrentMaxSize, Init, fill a body while
-// IsMaxBlockSizeReached(newMiniBlocks, newTxs) is false (AddNumMiniBlocks / AddNumTxs after every
-// accepted piece), marshal the body, throttler.Add(round, size), Succeed(round) or not.
-// Oracles: GetCurrentMaxSize() never exceeds the configured maximum; a body the throttled predicate
-// accepted (within the miniblock ceiling) is at most the network limit once marshalled.
+// proposer rounds the way the block processor does: ComputeCurrentMaxSize, Init, then
+//  1. whole miniblocks (dst-me / SCR / reward / peer miniblocks of 1..10000 txs) admitted through
+//     IsMaxBlockSizeWithoutThrottleReached(1, n) and registered with AddNumMiniBlocks(1) + AddNumTxs(n),
+//  2. from-me transactions / miniblocks admitted through the throttled IsMaxBlockSizeReached (also when the
+//     throttler's current maximum is already below what has been accumulated),
+//
+// then the body is marshalled, throttler.Add(round, size), Succeed(round) or not.
+// Oracles: GetCurrentMaxSize() never exceeds the configured maximum; a body whose every item was admitted
+// while the respective predicate said "fits" (within the miniblock ceiling) is at most the network limit;
+// both predicates are monotone in their arguments and in the registered counters.
 func proposerSim(r *vk.Run, c *vk.Case, ceiling int, m marshal.Marshalizer) {
 	rng := c.Rng
 	th, err := throttle.NewBlockSizeThrottle(prodMinSize, prodMaxSize)
@@ -39,14 +49,15 @@ func proposerSim(r *vk.Run, c *vk.Case, ceiling int, m marshal.Marshalizer) {
 		return
 	}
 	rounds := 6 + rng.Intn(10)
-	style := rng.Intn(4) // 0,1: many tiny META/ALL reward miniblocks (largest undershoot); 2: mixed; 3: few big miniblocks
+	style := rng.Intn(4)      // from-me part: 0,1: many tiny META/ALL reward miniblocks (largest undershoot); 2: mixed; 3: few big miniblocks
+	wholeStyle := rng.Intn(4) // whole miniblocks per round: 0: none; 1: a few big; 2: several mixed; 3: many small
 	succPct := []int{40, 70, 90}[rng.Intn(3)]
 	round := uint64(rng.Intn(100000))
 	var hist []string
-	sawFailOversized, sawShrink, sawGrow := false, false, false
+	sawFailOversized, sawShrink, sawGrow, sawAccumulatedAboveThrottled := false, false, false, false
 	prevMax := th.GetCurrentMaxSize()
 	detail := func() map[string]interface{} {
-		return map[string]interface{}{"configuredMin": prodMinSize, "configuredMax": prodMaxSize, "style": style, "history": hist}
+		return map[string]interface{}{"configuredMin": prodMinSize, "configuredMax": prodMaxSize, "style": style, "wholeStyle": wholeStyle, "history": hist}
 	}
 	maxReported := false
 	checkMax := func(when string) bool {
@@ -65,6 +76,24 @@ func proposerSim(r *vk.Run, c *vk.Case, ceiling int, m marshal.Marshalizer) {
 		}
 		return true
 	}
+	mkMiniBlock := func(k int, rewardsMetaAll bool) *block.MiniBlock {
+		mb := &block.MiniBlock{}
+		if rewardsMetaAll {
+			mb.SenderShardID, mb.ReceiverShardID, mb.Type = core.MetachainShardId, core.AllShardId, block.RewardsBlock
+		} else {
+			mb.SenderShardID, mb.ReceiverShardID = shardIDs[rng.Intn(len(shardIDs))], shardIDs[rng.Intn(len(shardIDs))]
+			mb.Type = mbTypes[rng.Intn(len(mbTypes))]
+		}
+		if k > 0 {
+			buf := rng.Bytes(k * hashLen)
+			mb.TxHashes = make([][]byte, k)
+			for t := 0; t < k; t++ {
+				mb.TxHashes[t] = buf[t*hashLen : (t+1)*hashLen : (t+1)*hashLen]
+			}
+		}
+		return mb
+	}
+	monoReported := false
 	for i := 0; i < rounds; i++ {
 		round += 1 + uint64(rng.Intn(3))
 		th.ComputeCurrentMaxSize()
@@ -80,6 +109,100 @@ func proposerSim(r *vk.Run, c *vk.Case, ceiling int, m marshal.Marshalizer) {
 		bsc.Init()
 		body := &block.Body{}
 		nmb, ntx := 0, 0
+		regMb, regTx := 0, 0 // what the harness registered (the throttler's maximum does not change inside a round)
+
+		// monotonicity oracle: answers of both predicates for a fixed set of queries; re-asked after registrations
+		var lastThr, lastUn [9]bool
+		haveLast := false
+		checkMono := func(when string) {
+			var thr, un [9]bool
+			for pi, p := range probes {
+				thr[pi] = bsc.IsMaxBlockSizeReached(p.a, p.b)
+				un[pi] = bsc.IsMaxBlockSizeWithoutThrottleReached(p.a, p.b)
+			}
+			r.Eval(2)
+			r.Count("sim_monotonicity_probe_rounds", 1)
+			fail := func(what string) {
+				if monoReported {
+					return
+				}
+				monoReported = true
+				hist = append(hist, "monotonicity: "+what)
+				r.Violation(c.Idx, "predicate-not-monotone", fmt.Sprintf("%s (%s; registered %d miniblocks + %d txs; throttler max %d, hard max %d)", what, when, regMb, regTx, allowed, prodMaxSize), detail())
+			}
+			for pi, p := range probes {
+				// in the registered counters: an answer "does not fit" never turns into "fits" while more is registered
+				if haveLast && lastThr[pi] && !thr[pi] {
+					fail(fmt.Sprintf("IsMaxBlockSizeReached(%d,%d) was true and became false after registering more", p.a, p.b))
+				}
+				if haveLast && lastUn[pi] && !un[pi] {
+					fail(fmt.Sprintf("IsMaxBlockSizeWithoutThrottleReached(%d,%d) was true and became false after registering more", p.a, p.b))
+				}
+				// in the arguments (includes: accumulated above the maximum, i.e. (0,0) reached => everything reached)
+				for qi, q := range probes {
+					if q.a >= p.a && q.b >= p.b && qi != pi {
+						if thr[pi] && !thr[qi] {
+							fail(fmt.Sprintf("IsMaxBlockSizeReached(%d,%d) is true but IsMaxBlockSizeReached(%d,%d) is false", p.a, p.b, q.a, q.b))
+						}
+						if un[pi] && !un[qi] {
+							fail(fmt.Sprintf("IsMaxBlockSizeWithoutThrottleReached(%d,%d) is true but (%d,%d) is false", p.a, p.b, q.a, q.b))
+						}
+					}
+				}
+			}
+			if thr[0] {
+				sawAccumulatedAboveThrottled = true
+			}
+			lastThr, lastUn, haveLast = thr, un, true
+		}
+		checkMono("start of round")
+
+		// 1. whole miniblocks through the un-throttled predicate
+		wholeAdmitted, wholeRefused := 0, 0
+		nWhole := 0
+		switch wholeStyle {
+		case 1:
+			nWhole = 1 + rng.Intn(4)
+		case 2:
+			nWhole = 2 + rng.Intn(10)
+		case 3:
+			nWhole = 10 + rng.Intn(60)
+		}
+		if rng.Chance(1, 5) {
+			nWhole = 0
+		}
+		for w := 0; w < nWhole && nmb < ceiling; w++ {
+			n := 0
+			switch wholeStyle {
+			case 1:
+				n = 2000 + rng.Intn(8001)
+			case 2:
+				n = 1 + rng.Intn(10000)
+				if rng.Bool() {
+					n = 1 + rng.Intn(800)
+				}
+			default:
+				n = 1 + rng.Intn(60)
+			}
+			if bsc.IsMaxBlockSizeWithoutThrottleReached(1, n) {
+				wholeRefused++
+				if wholeRefused >= 2 {
+					break
+				}
+				continue
+			}
+			body.MiniBlocks = append(body.MiniBlocks, mkMiniBlock(n, rng.Chance(1, 3)))
+			bsc.AddNumMiniBlocks(1)
+			bsc.AddNumTxs(n)
+			regMb, regTx = regMb+1, regTx+n
+			nmb++
+			ntx += n
+			wholeAdmitted++
+			checkMono("after registering a whole miniblock")
+		}
+
+		// 2. from-me part through the throttled predicate
+		fromMeAdmitted := 0
 		fullFill := rng.Chance(2, 3)
 		targetMb := 0
 		switch style {
@@ -92,6 +215,9 @@ func proposerSim(r *vk.Run, c *vk.Case, ceiling int, m marshal.Marshalizer) {
 		}
 		if !fullFill {
 			targetMb = 1 + rng.Intn(targetMb)
+		}
+		if targetMb <= nmb {
+			targetMb = nmb + 1
 		}
 		// expected number of hashes per miniblock so that the body fills up around targetMb miniblocks
 		perMb := int(allowed) / 34 / targetMb
@@ -126,20 +252,7 @@ func proposerSim(r *vk.Run, c *vk.Case, ceiling int, m marshal.Marshalizer) {
 				}
 				k = lo
 			}
-			mb := &block.MiniBlock{}
-			if style <= 1 || rng.Bool() {
-				mb.SenderShardID, mb.ReceiverShardID, mb.Type = core.MetachainShardId, core.AllShardId, block.RewardsBlock
-			} else {
-				mb.SenderShardID, mb.ReceiverShardID = shardIDs[rng.Intn(len(shardIDs))], shardIDs[rng.Intn(len(shardIDs))]
-				mb.Type = mbTypes[rng.Intn(len(mbTypes))]
-			}
-			if k > 0 {
-				buf := rng.Bytes(k * hashLen)
-				mb.TxHashes = make([][]byte, k)
-				for t := 0; t < k; t++ {
-					mb.TxHashes[t] = buf[t*hashLen : (t+1)*hashLen : (t+1)*hashLen]
-				}
-			}
+			body.MiniBlocks = append(body.MiniBlocks, mkMiniBlock(k, style <= 1 || rng.Bool()))
 			bsc.AddNumMiniBlocks(1)
 			if k > 0 {
 				if rng.Bool() {
@@ -149,13 +262,24 @@ func proposerSim(r *vk.Run, c *vk.Case, ceiling int, m marshal.Marshalizer) {
 					bsc.AddNumTxs(k - k/2)
 				}
 			}
-			body.MiniBlocks = append(body.MiniBlocks, mb)
+			regMb, regTx = regMb+1, regTx+k
 			nmb++
 			ntx += k
+			fromMeAdmitted++
+			if fromMeAdmitted%32 == 1 || full {
+				checkMono("after registering a from-me miniblock")
+			}
 		}
-		// the accumulated totals were accepted by the throttled predicate at the last addition
-		if bsc.IsMaxBlockSizeReached(0, 0) {
-			r.Count("sim_rounds_where_totals_are_reported_full_after_accepting", 1) // not required; recorded
+		checkMono("end of round")
+		if wholeAdmitted > 0 && fromMeAdmitted == 0 && bsc.IsMaxBlockSizeReached(0, 0) {
+			r.Count("sim_rounds_accumulated_above_throttled_max", 1)
+		}
+		path := "throttled"
+		switch {
+		case wholeAdmitted > 0 && fromMeAdmitted > 0:
+			path = "mixed"
+		case wholeAdmitted > 0:
+			path = "unthrottled"
 		}
 		buff, err := m.Marshal(body)
 		if err != nil {
@@ -165,6 +289,9 @@ func proposerSim(r *vk.Run, c *vk.Case, ceiling int, m marshal.Marshalizer) {
 		size := len(buff)
 		r.Eval(1)
 		r.Count("sim_rounds", 1)
+		r.Count("sim_rounds_path_"+path, 1)
+		r.Count("sim_whole_miniblocks_admitted", wholeAdmitted)
+		r.Count("sim_whole_miniblocks_refused", wholeRefused)
 		r.Max("sim_largest_body_bytes", int64(size))
 		oversized := uint32(size) > allowed
 		if oversized {
@@ -184,10 +311,10 @@ func proposerSim(r *vk.Run, c *vk.Case, ceiling int, m marshal.Marshalizer) {
 				sawFailOversized = true
 			}
 		}
-		hist = append(hist, fmt.Sprintf("round %d: allowed %d, body %d miniblocks + %d txs = %d bytes, succeeded=%v", round, allowed, nmb, ntx, size, ok))
-		if size > networkLimit {
-			r.Violation(c.Idx, "throttled-estimate-accepts-oversized-body",
-				fmt.Sprintf("IsMaxBlockSizeReached accepted %d miniblocks + %d txs with allowed size %d (configured max %d) but the body is %d bytes > %d", nmb, ntx, allowed, prodMaxSize, size, networkLimit), detail())
+		hist = append(hist, fmt.Sprintf("round %d: allowed %d, %d whole miniblocks admitted un-throttled (%d refused), %d from-me miniblocks admitted throttled; body %d miniblocks + %d txs = %d bytes, succeeded=%v", round, allowed, wholeAdmitted, wholeRefused, fromMeAdmitted, nmb, ntx, size, ok))
+		if size > networkLimit && nmb <= ceiling {
+			r.Violation(c.Idx, "estimate-accepts-oversized-body path="+path,
+				fmt.Sprintf("every item was admitted while its predicate said it fits (%d whole miniblocks un-throttled, %d from-me miniblocks throttled; %d miniblocks + %d txs; throttler max %d, configured max %d) but the body is %d bytes > %d", wholeAdmitted, fromMeAdmitted, nmb, ntx, allowed, prodMaxSize, size, networkLimit), detail())
 			return
 		}
 		checkMax("after Add/Succeed")
@@ -198,8 +325,11 @@ func proposerSim(r *vk.Run, c *vk.Case, ceiling int, m marshal.Marshalizer) {
 	if sawFailOversized {
 		r.Count("sim_histories_with_failed_oversized_round", 1)
 	}
-	r.Shape(fmt.Sprintf("sim style%d succ%d rounds~%d failedOversized=%v shrink=%v grow=%v", style, succPct, rounds/4*4, sawFailOversized, sawShrink, sawGrow))
-	if r.NeedSample() && sawFailOversized && sawGrow {
+	if sawAccumulatedAboveThrottled {
+		r.Count("sim_histories_with_accumulated_above_throttled_max", 1)
+	}
+	r.Shape(fmt.Sprintf("sim style%d whole%d succ%d rounds~%d failedOversized=%v shrink=%v grow=%v aboveThrottled=%v", style, wholeStyle, succPct, rounds/4*4, sawFailOversized, sawShrink, sawGrow, sawAccumulatedAboveThrottled))
+	if r.NeedSample() && sawFailOversized && sawGrow && sawAccumulatedAboveThrottled {
 		r.Sample(map[string]interface{}{"phase": "proposer-simulation", "history": hist})
 	}
 }
